@@ -374,7 +374,7 @@ mutual
 and `MakeFilename` the run-time flow is the one of the program with all static context ignored — whatever
 the `SetContext`s set, resolved or not, in every state the protocol can produce -/
 theorem run_noConsumer (n : Nat) (ok : OutKeys) (src : List Item) : ∀ (t : Tree) (F : List Ctx) (f : List Item),
-    t.noConsumer = true → run n ok src (final n t F) f = some (runPlain src t f)
+    t.noConsumer = true → run n ok src (final n t F) f = some (runPlain n src t f)
   | .leaf (.set ..), F, f, _ => by simp [final, leafFinal, run, runPlain]
   | .leaf .store, F, f, _ => by simp [final, leafFinal, run, runPlain]
   | .leaf .ucfs, F, f, h => by simp [Tree.noConsumer] at h
@@ -382,6 +382,7 @@ theorem run_noConsumer (n : Nat) (ok : OutKeys) (src : List Item) : ∀ (t : Tre
   | .leaf (.write _), F, f, _ => by simp [final, leafFinal, run, runPlain]
   | .leaf (.cache _), F, f, _ => by simp [final, leafFinal, run, runPlain]
   | .leaf .data, F, f, _ => by simp [final, leafFinal, run, runPlain]
+  | .leaf (.mut ..), F, f, _ => by simp [final, leafFinal, run, runPlain]
   | .leaf .src, F, f, _ => by simp [final, leafFinal, run, runPlain]
   | .seq kind cs, F, f, h => by
     simp only [Tree.noConsumer] at h
@@ -395,14 +396,14 @@ theorem run_noConsumer (n : Nat) (ok : OutKeys) (src : List Item) : ∀ (t : Tre
     · simp only [he]
       exact runB_noConsumer n ok src bs F f h
 theorem runL_noConsumer (n : Nat) (ok : OutKeys) (src : List Item) : ∀ (ts : List Tree) (F : List Ctx) (f : List Item),
-    noConsumerL ts = true → runL n ok src (finalL n ts F) f = some (runPlainL src ts f)
+    noConsumerL ts = true → runL n ok src (finalL n ts F) f = some (runPlainL n src ts f)
   | [], F, f, _ => by simp [finalL, runL, runPlainL]
   | t :: ts, F, f, h => by
     simp only [noConsumerL, Bool.and_eq_true] at h
     simp only [finalL, runL, runPlainL, run_noConsumer n ok src t _ f h.1]
     exact runL_noConsumer n ok src ts _ _ h.2
 theorem runB_noConsumer (n : Nat) (ok : OutKeys) (src : List Item) : ∀ (bs : List Tree) (F : List Ctx) (f : List Item),
-    noConsumerL bs = true → runB n ok src (finalB n bs F) f = some (runPlainB src bs f)
+    noConsumerL bs = true → runB n ok src (finalB n bs F) f = some (runPlainB n src bs f)
   | [], F, f, _ => by simp [finalB, runB, runPlainB]
   | b :: bs, F, f, h => by
     simp only [noConsumerL, Bool.and_eq_true] at h
@@ -411,7 +412,7 @@ end
 
 /-- **no leak**, for the constructed program -/
 theorem no_leak_without_consumer (n : Nat) (ok : OutKeys) (src : List Item) (t : Tree) (f : List Item)
-    (h : t.noConsumer = true) : run n ok src (build n t) f = some (runPlain src t f) := by
+    (h : t.noConsumer = true) : run n ok src (build n t) f = some (runPlain n src t f) := by
   rw [build_eq_final]; exact run_noConsumer n ok src t _ f h
 
 theorem foldB_ok_branch (n : Nat) : ∀ (bs : List Tree) (c : Ctx) (xs : List Ctx), foldB n bs c = .ok xs →
@@ -450,6 +451,7 @@ theorem run_final (n : Nat) (ok : OutKeys) (src : List Item) : ∀ (t : Tree) (F
   | .leaf (.write _), F, f, _, _, _ => by simp [final, leafFinal, run, runRef]
   | .leaf (.cache _), F, f, _, _, _ => by simp [final, leafFinal, run, runRef]
   | .leaf .data, F, f, _, _, _ => by simp [final, leafFinal, run, runRef]
+  | .leaf (.mut ..), F, f, _, _, _ => by simp [final, leafFinal, run, runRef]
   | .leaf .src, F, f, _, _, _ => by simp [final, leafFinal, run, runRef]
   | .seq kind cs, F, f, x, hF, h => by
     simp only [fold] at h
@@ -506,6 +508,85 @@ theorem no_leak (n : Nat) (ok : OutKeys) (src : List Item) (t : Tree) (f : List 
   rw [build_eq_final]
   have := run_final n ok src t [Val.empty n] f x (by simp) (by simpa [lastD] using h)
   simpa [lastD] using this
+
+/-! ## run time: values do not influence each other through static context
+
+In the value model `run` is a function of the state of the objects and cannot change it: the transcribed
+`run`/`__call__` methods assign no attribute (`UpdateContextFromStatic.run` and `MakeFilename.__call__` work
+on deep copies of what they stored).  "The static state after a run is the state before it" is therefore not
+a theorem about the model but its modelling assumption (locality of mutation); the harness checks it on the
+real code by reading every object again after the run.  What the model can state is its consequence for the
+flow: a value is processed the same way whatever values came before it. -/
+
+mutual
+/-- no `Split` with branches and no source element (whose outputs are not per-value) -/
+def St.linear : St → Bool
+  | .src => false
+  | .split bs => bs.isEmpty
+  | .seq _ cs _ => linearL cs
+  | _ => true
+def linearL : List St → Bool
+  | [] => true
+  | s :: ss => s.linear && linearL ss
+end
+
+/-- concatenation of two optional flows -/
+def appendOpt : Option (List Item) → Option (List Item) → Option (List Item)
+  | some a, some b => some (a ++ b)
+  | _, _ => none
+
+theorem mapM_append_opt {α β : Type} (g : α → Option β) : ∀ (f1 f2 : List α),
+    (f1 ++ f2).mapM g = match f1.mapM g, f2.mapM g with
+      | some a, some b => some (a ++ b)
+      | _, _ => none
+  | [], f2 => by cases h : f2.mapM g <;> simp [h]
+  | x :: f1, f2 => by
+    simp only [List.cons_append, List.mapM_cons, mapM_append_opt g f1 f2]
+    cases g x <;> cases f1.mapM g <;> cases f2.mapM g <;> simp
+
+mutual
+/-- **values are independent**: in every state `st` of a sequence of per-value elements (any nesting), the
+result for a flow `f1 ++ f2` is the result for `f1` followed by the result for `f2` — what the static
+context does to a value does not depend on the values processed before it, for every state the protocol
+can produce and every run-time mutator in the program -/
+theorem run_values_independent (n : Nat) (ok : OutKeys) (src : List Item) : ∀ (st : St) (f1 f2 : List Item),
+    st.linear = true → run n ok src st (f1 ++ f2) = appendOpt (run n ok src st f1) (run n ok src st f2)
+  | .set .., f1, f2, _ => by simp [run, appendOpt]
+  | .store _, f1, f2, _ => by simp [run, appendOpt]
+  | .ucfs c, f1, f2, _ => by simp [run, appendOpt]
+  | .mkf t c, f1, f2, _ => by
+    simp only [run, mapM_append_opt]
+    cases List.mapM (fun it => (mkfCall n ok t c it.2).map fun x => (it.1, x)) f1 <;>
+      cases List.mapM (fun it => (mkfCall n ok t c it.2).map fun x => (it.1, x)) f2 <;> simp [appendOpt]
+  | .write .., f1, f2, _ => by simp [run, appendOpt]
+  | .cache .., f1, f2, _ => by simp [run, appendOpt]
+  | .data, f1, f2, _ => by simp [run, appendOpt]
+  | .mut .., f1, f2, _ => by simp [run, appendOpt]
+  | .src, _, _, h => by simp [St.linear] at h
+  | .seq kind cs sc, f1, f2, h => by
+    simp only [St.linear] at h
+    simp only [run]
+    exact runL_values_independent n ok src cs f1 f2 h
+  | .split bs, f1, f2, h => by
+    simp only [St.linear] at h
+    simp [run, h, appendOpt]
+theorem runL_values_independent (n : Nat) (ok : OutKeys) (src : List Item) : ∀ (ss : List St) (f1 f2 : List Item),
+    linearL ss = true → runL n ok src ss (f1 ++ f2) = appendOpt (runL n ok src ss f1) (runL n ok src ss f2)
+  | [], f1, f2, _ => by simp [runL, appendOpt]
+  | s :: ss, f1, f2, h => by
+    simp only [linearL, Bool.and_eq_true] at h
+    simp only [runL, run_values_independent n ok src s f1 f2 h.1]
+    cases h1 : run n ok src s f1 with
+    | none => simp [appendOpt]
+    | some a =>
+      cases h2 : run n ok src s f2 with
+      | none =>
+        simp only [appendOpt]
+        cases runL n ok src ss a <;> rfl
+      | some b =>
+        simp only [appendOpt]
+        exact runL_values_independent n ok src ss a b h.2
+end
 
 /-- **why skipping is sound** (the optimisation `if hasattr(el, "_set_context") and context:` of
 `LenaSequence._set_context`): if the context after some elements is empty when they are started from a
